@@ -12,8 +12,10 @@ let cpu_test_rom () : Bytes.t =
   for a = 0 to 0x7fff do Bytes.set b a (Char.chr (int_of_n (test_rom (n_of_int a)))) done;
   b
 
+let decode_path (p : string) : string = String.concat " " (Str.split_delim (Str.regexp_string "%20") p)
+
 let read_file (path : string) : Bytes.t =
-  let ic = open_in_bin path in
+  let ic = open_in_bin (decode_path path) in
   let n = in_channel_length ic in
   let b = Bytes.create n in
   really_input ic b 0 n; close_in ic; b
